@@ -42,6 +42,23 @@ func main() {
 			*tier = t
 		}
 		os.Exit(runCheck(*prop, *tier, *repo, *tags))
+	case "checkall":
+		fs := flag.NewFlagSet("checkall", flag.ExitOnError)
+		repo := fs.String("repo", "/repo", "repository root")
+		tags := fs.String("tags", "", "extra build tags (comma separated)")
+		var overlays multiFlag
+		fs.Var(&overlays, "overlay", "relpath=file")
+		fs.Parse(os.Args[2:])
+		overlayArgs, noEvidence = overlays, true
+		os.Exit(runCheckAll(*repo, *tags))
+	case "sweepall":
+		fs := flag.NewFlagSet("sweepall", flag.ExitOnError)
+		repo := fs.String("repo", "/repo", "repository root")
+		out := fs.String("out", "/verif/evidence/global_sensitivity.json", "result file")
+		per := fs.Int("per-file", 400, "maximum number of edits per file")
+		par := fs.Int("parallel", 8, "analyses in parallel")
+		fs.Parse(os.Args[2:])
+		os.Exit(runSweepAll(*repo, *out, *per, *par))
 	case "list":
 		for _, id := range rules.IDs() {
 			fmt.Println(id)
